@@ -69,6 +69,15 @@ def _is_extreme(v, dt):
     return abs(float(v)) >= 1e6
 
 
+def _prime(case, op, p, traces):
+    """the same preprocess object is first used on other traces (longer ones when the configuration allows): no state may leak into the next call"""
+    other = np.ascontiguousarray(traces[::-1])
+    try:
+        p(np.concatenate([other, other[:, :3]], axis=1))
+    except Exception:      # configuration tied to the trace length (given mean vector, explicit frames): use traces of the same length
+        must(case, '%s priming call on other traces of the same length' % op, p, other)
+
+
 def check_combination(ctx, case):
     op, cfg, traces, prec = case['op'], case['cfg'], case['traces'], case['precision']
     t0 = traces.copy()
@@ -80,7 +89,7 @@ def check_combination(ctx, case):
         kw['mean'] = mean
     p = must(case, 'constructing %s(%s)' % (op, sorted(kw)), klass, **kw)
     if traces.shape[0] > 1:
-        must(case, '%s priming call on other traces' % op, p, np.concatenate([traces[::-1], traces[::-1][:, :3]], axis=1))     # same object first used on longer traces: no state may leak into the next call
+        _prime(case, op, p, traces)
     out = must(case, '%s on %s%s' % (op, traces.dtype, traces.shape), p, gen.L(case, traces))
     n, L = traces.shape
     pairs = _pairs(cfg, L)
@@ -284,7 +293,7 @@ def check_timefreq(ctx, case):
         warnings.simplefilter('ignore')
         p = must(case, 'constructing %s(%s)' % (op, sorted(kw)), klass, **kw)
         if traces.shape[0] > 1:
-            must(case, '%s priming call on other traces' % op, p, np.concatenate([traces[::-1], traces[::-1][:, :3]], axis=1))     # same object first used on longer traces: no state may leak into the next call
+            _prime(case, op, p, traces)
         out = must(case, '%s on %s%s' % (op, traces.dtype, traces.shape), p, gen.L(case, traces))
     n, L = traces.shape
     g1 = f1 if f1 is not None else f2
